@@ -1400,15 +1400,16 @@ Proof. induction a as [|x a IH]; simpl; intros b H; [exact H | inversion H; auto
 Definition trees (st : state) : list param := st_root st :: st_free st.
 Definition all_nodes (st : state) : list param := flat_map nodes (trees st).
 
-Lemma step_with_ext : forall ts ts' c c' a a',
-  (forall n T o, ts n T o = ts' n T o) -> (forall n s, c n s = c' n s) -> (forall d t T, a d t T = a' d t T) ->
-  forall st o, step_with ts c a st o = step_with ts' c' a' st o.
+Lemma step_with_ext : forall ts ts' rm rm' c c' a a',
+  (forall n T o, ts n T o = ts' n T o) -> (forall T k, rm T k = rm' T k) ->
+  (forall n s, c n s = c' n s) -> (forall d t T, a d t T = a' d t T) ->
+  forall st o, step_with ts rm c a st o = step_with ts' rm' c' a' st o.
 Proof.
-  intros ts ts' c c' a a' H1 H2 H3 st o. unfold step_with.
+  intros ts ts' rm rm' c c' a a' H1 Hr H2 H3 st o. unfold step_with.
   destruct (split_target o) as [tg o'].
   destruct (get_target (st_root st) (st_free st) tg) as [T|]; [|reflexivity].
-  destruct o'; rewrite ?H1, ?H2; try reflexivity.
-  destruct (find_free i (st_free st)); [|reflexivity]. rewrite H3. reflexivity.
+  destruct o'; rewrite ?H1, ?H2, ?Hr; try reflexivity.
+  match goal with |- context [find_free ?x ?l] => destruct (find_free x l); [|reflexivity] end. rewrite H3. reflexivity.
 Qed.
 
 Lemma attach_lit_eq : forall d t T, attach_lit d t T = attach_seg d t T.
@@ -1416,9 +1417,11 @@ Proof. intros. apply py_modify_at_eq. Qed.
 
 (* the forest step over the walk-over-segments functions *)
 Lemma step_seg : forall st o,
-  step repaired st o = step_with (step_root repaired) (ctor_free repaired) attach_seg st o.
+  step repaired st o =
+  step_with (step_root repaired) (fun T k => remove_at (segments k) T) (ctor_free repaired) attach_seg st o.
 Proof.
-  intros. unfold step. apply step_with_ext; [intros; apply step_root_lit_eq | reflexivity | apply attach_lit_eq].
+  intros. unfold step.
+  apply step_with_ext; [intros; apply step_root_lit_eq | intros; apply py_remove_eq | reflexivity | apply attach_lit_eq].
 Qed.
 
 Lemma find_free_split : forall j T T' l, find_free j l = Some T ->
@@ -1490,6 +1493,11 @@ Inductive trans (n : nat) (root : param) (free : list param) : param -> list par
     get_target root free tg = Some T ->
     set_target root free tg (fst (step_root repaired n T o')) = (root', free') ->
     trans n root free root' free' (snd (step_root repaired n T o'))
+| tr_remove : forall tg T path T' x root' free',
+    get_target root free tg = Some T ->
+    remove_at (segments path) T = Val (T', x) ->
+    set_target root free tg T' = (root', free') ->
+    trans n root free root' (free' ++ [x]) (OParam (pid x))
 | tr_attach : forall tg T i t dst T' root' free',
     find_free i free = Some t -> tg <> Some i ->
     get_target root (remove_free i free) tg = Some T ->
@@ -1525,6 +1533,10 @@ Proof.
     split; [reflexivity | apply (Ht root' free' Eg eq_refl)]. }
   destruct o' as [path v|pp s|pp s|path|path|path v|path|src dst|path|s|i o''|i dst];
     try (apply Htree; reflexivity).
+  - (* ORemove *)
+    destruct (remove_at (segments path) T) as [[T' x]|e] eqn:Er; [|split; [reflexivity | apply tr_same]].
+    destruct (set_target root free tg T') as [root' free'] eqn:Eset. simpl.
+    split; [reflexivity | eapply tr_remove; eauto].
   - (* ONew *)
     destruct tg as [j|]; [split; [reflexivity | apply tr_same]|].
     unfold ctor_free. destruct (ctor_checks repaired s None) eqn:Ec; simpl;
